@@ -78,6 +78,9 @@ func runSolver(ctx context.Context, sp solverSpec, file string, timeoutS int) (s
 	return "error", out, dur
 }
 
+// crossCheckGraceS: in the thorough tier, how long the remaining solvers may go on after the first definite answer
+const crossCheckGraceS = 8
+
 // solveOne races the solvers; all=true waits for every solver (thorough tier).
 func solveOne(o *Obligation, dir string, idx int, timeoutS int, all bool) *SolveResult {
 	if !o.Cover && o.Goal.IsTrue() {
@@ -114,6 +117,7 @@ func solveOne(o *Obligation, dir string, idx int, timeoutS int, all bool) *Solve
 	}
 	res := &SolveResult{Status: "unknown", AllRuns: map[string]string{}}
 	var outs []string
+	var graceTimer *time.Timer
 	for i := 0; i < len(solvers); i++ {
 		x := <-ch
 		res.AllRuns[x.sp.name] = x.status
@@ -127,6 +131,11 @@ func solveOne(o *Obligation, dir string, idx int, timeoutS int, all bool) *Solve
 			if !all {
 				cancel()
 				break
+			}
+			// thorough tier: the other solvers get a bounded extra budget to cross-check the answer
+			if graceTimer == nil {
+				graceTimer = time.AfterFunc(time.Duration(crossCheckGraceS)*time.Second, cancel)
+				defer graceTimer.Stop()
 			}
 		} else {
 			outs = append(outs, fmt.Sprintf("%s: %s (%.1fs) %s", x.sp.name, x.status, x.dur, trunc(firstLine(x.out), 200)))
